@@ -77,6 +77,28 @@ impl Ty {
     }
 }
 
+/// Mathematical value of a seek argument. `Ty::U128` carries values >= 2^127 as a negative i128
+/// (two's complement; `v as u128` is the value that reaches `try_seek::<u128>`), every other type
+/// carries the value itself.
+fn seek_math(ty: Ty, v: i128) -> String {
+    if ty == Ty::U128 {
+        format!("{}", v as u128)
+    } else {
+        format!("{}", v)
+    }
+}
+/// the same value when it is a u64 (the only values `try_seek` may accept)
+fn seek_u64(ty: Ty, v: i128) -> Option<u64> {
+    if ty == Ty::U128 {
+        let u = v as u128;
+        if u <= u64::MAX as u128 { Some(u as u64) } else { None }
+    } else if v >= 0 && v <= u64::MAX as i128 {
+        Some(v as u64)
+    } else {
+        None
+    }
+}
+
 #[derive(Clone, Copy, PartialEq, Eq, Debug)]
 enum Res {
     Ok,
@@ -135,6 +157,31 @@ impl AnyCipher {
             _ => AnyCipher::X20(XChaCha20::new(k, GenericArray::from_slice(nonce))),
         }
     }
+    /// constructor under catch_unwind: a panicking constructor is an outcome, not a dead harness
+    fn try_new(var: &Variant, key: &[u8], nonce: &[u8]) -> Option<Self> {
+        catch_unwind(AssertUnwindSafe(|| AnyCipher::new(var, key, nonce))).ok()
+    }
+    /// A second object in exactly the state of this one: a new instance whose (public) `Buffer`
+    /// is replaced by a clone of ours (`ChaChaAny` itself is not `Clone` for the exported types,
+    /// its marker types do not implement it). Used to look at what an object would do next
+    /// without touching it; also the only place `Buffer::clone` of a mid-block state is run.
+    fn fork(&self, var: &Variant, key: &[u8], nonce: &[u8]) -> Option<Self> {
+        catch_unwind(AssertUnwindSafe(|| {
+            let mut n = AnyCipher::new(var, key, nonce);
+            match (self, &mut n) {
+                (AnyCipher::C8(a), AnyCipher::C8(b)) => b.state = a.state.clone(),
+                (AnyCipher::C12(a), AnyCipher::C12(b)) => b.state = a.state.clone(),
+                (AnyCipher::C20(a), AnyCipher::C20(b)) => b.state = a.state.clone(),
+                (AnyCipher::I(a), AnyCipher::I(b)) => b.state = a.state.clone(),
+                (AnyCipher::X8(a), AnyCipher::X8(b)) => b.state = a.state.clone(),
+                (AnyCipher::X12(a), AnyCipher::X12(b)) => b.state = a.state.clone(),
+                (AnyCipher::X20(a), AnyCipher::X20(b)) => b.state = a.state.clone(),
+                _ => unreachable!(),
+            }
+            n
+        }))
+        .ok()
+    }
     fn apply(&mut self, data: &mut [u8]) -> Res {
         let r = catch_unwind(AssertUnwindSafe(|| each!(self, c => c.try_apply_keystream(data).is_ok())));
         match r {
@@ -183,6 +230,72 @@ impl AnyCipher {
     }
 }
 
+/// Input data of the large calls: high bytes of x, 5x + 12345, ... (mod 2^16). `Run/ChaCha.v Pat`
+/// computes the same bytes, so the case file carries `(Pat len seed)` instead of a literal (coqc
+/// spends ~80 us per literal byte, 1.3 s for 16 KiB).
+fn lcg_fill(buf: &mut [u8], seed: u16) {
+    let mut x = seed as u32;
+    for b in buf.iter_mut() {
+        *b = (x >> 8) as u8;
+        x = (x * 5 + 12345) & 0xffff;
+    }
+}
+/// the seed if `data` (1 KiB or more) is such a sequence
+fn pat_seed(data: &[u8]) -> Option<u16> {
+    if data.len() < 1024 {
+        return None;
+    }
+    let mut t = vec![0u8; data.len()];
+    for lo in 0..256u16 {
+        let seed = (data[0] as u16) << 8 | lo;
+        lcg_fill(&mut t[..8], seed);
+        if t[..8] == data[..8] {
+            lcg_fill(&mut t, seed);
+            if t == data {
+                return Some(seed);
+            }
+        }
+    }
+    None
+}
+/// Coq term (type N) whose little-endian encoding is `b`: from 16 bytes on a list of primitive
+/// integer literals, seven bytes each, joined by `Run/ChaCha.v W` (coqc reads these natively; a
+/// hexadecimal N literal costs it ~80 us per byte)
+fn blit(b: &[u8]) -> String {
+    if b.len() < 16 {
+        return nlit(b);
+    }
+    let ws: Vec<String> = b
+        .chunks(7)
+        .map(|c| {
+            let mut w = 0u64;
+            for (j, x) in c.iter().enumerate() {
+                w |= (*x as u64) << (8 * j);
+            }
+            format!("{}", w)
+        })
+        .collect();
+    format!("(W [{}]%uint63)", ws.join("; "))
+}
+/// Coq term for the input bytes of a call
+fn dlit(data: &[u8]) -> String {
+    match pat_seed(data) {
+        Some(seed) => format!("(Pat {} {})", data.len(), seed),
+        None => blit(data),
+    }
+}
+const CASE_HEADER: &str = "From Coq Require Import NArith ZArith List Uint63.\nFrom CC Require Import Run.Runner Run.ChaCha.";
+/// input bytes of a call: random, from 2 KiB on the computable sequence
+fn gen_data(rng: &mut Rng, n: usize) -> Vec<u8> {
+    let mut d = vec![0u8; n];
+    if n >= 2048 {
+        lcg_fill(&mut d, rng.below(1 << 16) as u16);
+    } else {
+        rng.fill(&mut d);
+    }
+    d
+}
+
 fn rd32(b: &[u8]) -> u32 {
     u32::from_le_bytes([b[0], b[1], b[2], b[3]])
 }
@@ -222,7 +335,8 @@ fn oracle_block(var: &Variant, key: &[u8], nonce: &[u8], k: u128) -> Option<Vec<
         } else {
             // beyond what a u64 byte position can address: run on from the last addressable block
             let first = (1u128 << 58) - 1;
-            if k - first > 64 {
+            // (several large calls in a row past 2^64 bytes: each block costs k - first blocks here)
+            if k - first > 3000 {
                 return None;
             }
             if c.seek(Ty::U64, (first * 64) as i128) != Res::Ok {
@@ -246,7 +360,26 @@ fn limit(var: &Variant) -> u128 {
     }
 }
 
-fn gen_len(rng: &mut Rng, big: bool) -> usize {
+/// Large-input class: 2..16 KiB in one call (8..64 iterations of the 256-byte wide loop), every
+/// tail shape: whole wide iterations only, a tail of whole blocks, a partial last block.
+fn gen_len_large(rng: &mut Rng) -> usize {
+    match rng.below(8) {
+        0 => 2048,
+        1 => 4096,
+        2 => 16384,
+        3 => 2048 + 256 * rng.below(57) as usize,                       // whole wide iterations
+        4 => rng.range(2049, 4200) as usize,
+        5 => 4096 + 64 * rng.below(4) as usize + rng.below(64) as usize, // every tail residue
+        6 => rng.range(8000, 16384) as usize,
+        _ => rng.range(2048, 16384) as usize,
+    }
+}
+
+/// `large` = chance in 1000 of a length from the 2-16 KiB class (0: the stream is the one without it)
+fn gen_len(rng: &mut Rng, big: bool, large: u64) -> usize {
+    if large > 0 && rng.below(1000) < large {
+        return gen_len_large(rng);
+    }
     match rng.below(12) {
         0 => 0,
         1 => 1,
@@ -269,6 +402,32 @@ fn gen_len(rng: &mut Rng, big: bool) -> usize {
     }
 }
 
+fn len_class(n: usize) -> &'static str {
+    match n {
+        0 => "0",
+        1..=63 => "1-63",
+        64 => "64",
+        65..=255 => "65-255",
+        256 => "256",
+        257..=511 => "257-511",
+        512..=2047 => "512-2047",
+        2048..=4095 => "2048-4095",
+        4096..=8191 => "4096-8191",
+        _ => ">=8192",
+    }
+}
+
+/// a multiple k >= 2 of 2^32 blocks whose byte position still fits u64: k = 2, 3, or a random
+/// (mostly odd) high counter word below 2^26
+fn high_word(rng: &mut Rng) -> u128 {
+    match rng.below(4) {
+        0 => 2,
+        1 => 3,
+        2 => (rng.below((1 << 26) - 3) as u128 + 2) | 1,
+        _ => (1 << 26) - 1,
+    }
+}
+
 /// positions near the interesting boundaries
 fn gen_pos(rng: &mut Rng, var: &Variant) -> u128 {
     let near = |rng: &mut Rng, c: u128| -> u128 {
@@ -288,13 +447,19 @@ fn gen_pos(rng: &mut Rng, var: &Variant) -> u128 {
             _ => 64 * rng.below(8) as u128,
         }
     } else {
-        match rng.below(10) {
+        match rng.below(12) {
             0 | 1 => rng.below(300) as u128,
             2 | 3 => near(rng, 1 << 38),                 // block counter low word carries at 2^32 blocks
             4 | 5 => near(rng, 1 << 64).min(u64::MAX as u128), // end of u64-addressable positions
             6 => rng.u64() as u128,
             7 => 64 * rng.below(8) as u128,
             8 => (1u128 << 38) - 64 * rng.below(5) as u128,
+            // the second and later carries of the low counter word: block counter next to k * 2^32,
+            // k >= 2 (high word odd / all ones below 2^26)
+            9 | 10 => {
+                let k = high_word(rng);
+                near(rng, k << 38).min(u64::MAX as u128)
+            }
             _ => rng.below(1 << 20) as u128,
         }
     }
@@ -309,21 +474,169 @@ fn pick_ty_for(rng: &mut Rng, v: i128) -> Ty {
     *rng.pick(&ok)
 }
 
+/// Force the ppv-lite86 back end (hook H1) and read the level back: the value the dispatch macros
+/// will see. 0 = the CPU's own detection. Returns what `verif::level()` reports (255: no hook in
+/// this build, i.e. the portable back end).
+fn force_level(level: u8) -> i64 {
+    #[cfg(all(cryptocorrosion_verif, not(feature = "no_simd")))]
+    {
+        ppv_lite86::x86_64::verif::set_level(level);
+        let got = ppv_lite86::x86_64::verif::level();
+        if got != level {
+            eprintln!("back-end level {} requested, verif::level() reports {}", level, got);
+            std::process::exit(4);
+        }
+        got as i64
+    }
+    #[cfg(not(all(cryptocorrosion_verif, not(feature = "no_simd"))))]
+    {
+        if level != 0 {
+            eprintln!("a back-end level can only be forced in the build with hook H1 and without no_simd");
+            std::process::exit(4);
+        }
+        255
+    }
+}
+
+/// Which Machine type the three dispatch macros select in THIS process after `force_level`: the
+/// macros are expanded here with the same cfg flags as in c2-chacha, so a level that is stored but
+/// not honoured by a macro (a dropped arm of the hook) shows up as the wrong type name.
+#[cfg(not(feature = "no_simd"))]
+mod probe {
+    use ppv_lite86::{dispatch, dispatch_light128, Machine};
+    dispatch!(m, M, {
+        fn sel_dispatch(x: u32) -> &'static str {
+            let _ = (m, x);
+            core::any::type_name::<M>()
+        }
+    });
+    dispatch_light128!(m, M, {
+        fn sel_light128(x: u32) -> &'static str {
+            let _ = (m, x);
+            core::any::type_name::<M>()
+        }
+    });
+    pub fn selected() -> (String, String) {
+        (short(sel_dispatch(0)), short(sel_light128(0)))
+    }
+    /// "sse2" | "ssse3" | "sse41" (SSE4.1 and AVX are the same Machine type) | "avx2" | "generic" | the raw name
+    fn short(name: &str) -> String {
+        let n: String = name.chars().filter(|c| !c.is_whitespace()).collect();
+        if n.contains("GenericMachine") {
+            "generic".into()
+        } else if n.contains("Avx2Machine") {
+            "avx2".into()
+        } else if n.contains("SseMachine") {
+            match (n.contains("YesS3"), n.contains("YesS4")) {
+                (false, false) => "sse2".into(),
+                (true, false) => "ssse3".into(),
+                (true, true) => "sse41".into(),
+                _ => n,
+            }
+        } else {
+            n
+        }
+    }
+}
+#[cfg(feature = "no_simd")]
+mod probe {
+    pub fn selected() -> (String, String) {
+        ("generic".into(), "generic".into())
+    }
+}
+
 // ---------------------------------------------------------------------------------------------
 // C01
 // ---------------------------------------------------------------------------------------------
+/// The designated large cases of a C01 run: `large` indices >= 14 spread over the run so that no
+/// two of them fall into the same Coq shard (the model costs ~3 ms per block and the spec as much).
+fn large_indices(count: usize, shards: usize, large: usize) -> Vec<usize> {
+    let mut v: Vec<usize> = Vec::new();
+    if count <= 15 || large == 0 {
+        return v;
+    }
+    let large = large.min(count - 14);
+    let stride = ((count - 14) / large).max(1);
+    let mut used = HashSet::new();
+    for j in 0..large {
+        let mut i = 14 + j * stride + stride / 2;
+        let mut tries = 0;
+        while (i >= count || v.contains(&i) || used.contains(&(i % shards.max(1)))) && tries < 4 * shards + 4 {
+            i = if i + 1 >= count { 14 } else { i + 1 };
+            tries += 1;
+        }
+        if i < count && !v.contains(&i) {
+            used.insert(i % shards.max(1));
+            v.push(i);
+        }
+    }
+    v
+}
+
+/// position and length of the `shape`-th kind of large case
+fn large_case(rng: &mut Rng, var: &Variant, shape: usize, max: usize) -> (u128, usize, &'static str) {
+    let (p, n, what) = large_case0(rng, var, shape, max.max(2304));
+    assert!(n <= max.max(2304) && n >= 2048);
+    (p, n, what)
+}
+fn large_case0(rng: &mut Rng, var: &Variant, shape: usize, max: usize) -> (u128, usize, &'static str) {
+    let b38: u128 = 1 << 38;
+    let ietf = var.v == 1;
+    match shape % 6 {
+        0 => {
+            // from a mid-block position: buffered prefix, then 8..16 wide iterations, then every tail shape
+            let pos = 64 * rng.below(4) as u128 + 1 + rng.below(63) as u128;
+            let n = (2048 + 256 * rng.below(9) as usize + rng.below(256) as usize).min(max - rng.below(64) as usize);
+            (pos, n, "mid-block start, 8-16 wide iterations + tail")
+        }
+        1 => {
+            // the low counter word carries in the middle of the wide run (IETF: the call ends exactly at the end)
+            let n = gen_len_large(rng).min(8192).min(max);
+            let pos = if ietf { b38 - n as u128 } else { b38 - rng.range(1, n as u64 - 1) as u128 };
+            (pos, n, if ietf { "ends exactly at 2^38" } else { "across 2^32 blocks inside the wide run" })
+        }
+        2 => (64 * rng.below(1 << 20) as u128, max.min(16384), "longest (16 KiB unless capped), block aligned"),
+        3 => {
+            let n = gen_len_large(rng).min(6144).min(max);
+            if ietf {
+                (rng.u64() as u128 % (b38 - 20000), n, "random position")
+            } else {
+                let k = high_word(rng);
+                ((k << 38) - rng.range(1, n as u64 - 1) as u128, n, "across k*2^32 blocks, k >= 2, inside the wide run")
+            }
+        }
+        4 => {
+            let n = gen_len_large(rng).min(max);
+            let pos = gen_pos(rng, var);
+            let pos = if ietf { pos.min(b38 - n as u128) } else { pos };
+            (pos, n, "boundary-directed position")
+        }
+        _ => {
+            let n = gen_len_large(rng).min(6144).min(max);
+            if ietf {
+                // one byte more than the stream has: Err, nothing written, after the wide path was in reach
+                (b38 + 1 - n as u128, n, "one byte past 2^38: atomic Err")
+            } else {
+                (u64::MAX as u128 - rng.below(n as u64) as u128, n, "across 2^64 bytes")
+            }
+        }
+    }
+}
+
 fn run_c01(a: &Args) {
     let seed = a.u64("seed", 1);
     let count = a.u64("count", 100) as usize;
     let shards = a.u64("shards", 16) as usize;
     let out = a.str("out", "/tmp/c01");
     let big = a.u64("big", 0) == 1;
+    // number of designated 2-16 KiB cases (spread over the shards) and chance in 1000 of such a
+    // length in every other case
+    let large = a.u64("large", 3) as usize;
+    let large_pm = a.u64("large-permille", 0);
+    let large_max = a.u64("large-max", 16384) as usize; // cap of the designated cases (Coq: ~20 ms per block, model + spec)
     // back end: 0 = whatever the CPU detection picks, 1..5 = SSE2, SSSE3, SSE4.1, AVX, AVX2 (hook H1)
     let level = a.u64("level", 0) as u8;
-    #[cfg(all(cryptocorrosion_verif, not(feature = "no_simd")))]
-    ppv_lite86::x86_64::verif::set_level(level);
-    #[cfg(feature = "no_simd")]
-    let _ = level;
+    let readback = force_level(level);
     let mut rng = Rng::new(seed ^ 0xc01);
     let mut cases = Vec::new();
     let mut js = Vec::new();
@@ -331,58 +644,96 @@ fn run_c01(a: &Args) {
     let mut by_variant: BTreeMap<&str, usize> = BTreeMap::new();
     let mut res_count = [0usize; 3];
     let mut len_hist: BTreeMap<&str, usize> = BTreeMap::new();
+    let mut seek_types: BTreeMap<&str, usize> = BTreeMap::new();
     let mut direct = Vec::new();
     let mut n_prefixed = 0usize;
+    let mut n_high_carry = 0usize;
+    let mut max_wide_iters = 0usize;
+    let mut large_js = Vec::new();
+    let large_at = large_indices(count, shards, large);
     for i in 0..count {
         let var = &VARIANTS[i % 7];
         *by_variant.entry(var.name).or_default() += 1;
         let key = if i < 7 { (0..32).map(|j| j as u8).collect() } else { rng.bytes(32) };
         let nonce = if i < 7 { (0..var.nonce_len).map(|j| (j * 7 + 1) as u8).collect() } else { rng.bytes(var.nonce_len) };
-        let pos = if i < 7 { 0 } else if i < 14 { 64 } else { gen_pos(&mut rng, var) };
-        // C01 is about positions that can be seeked to (seek errors belong to C11): the IETF
-        // variant accepts positions up to and including 2^38
-        let pos = if var.v == 1 { pos.min(1u128 << 38) } else { pos };
-        let n = if i < 14 { 130 } else { gen_len(&mut rng, big) };
-        let cls = match n {
-            0 => "0",
-            1..=63 => "1-63",
-            64 => "64",
-            65..=255 => "65-255",
-            256 => "256",
-            _ => ">256",
+        let large_j = large_at.iter().position(|x| *x == i);
+        let (pos, n) = if let Some(j) = large_j {
+            let (p, n, what) = large_case(&mut rng, var, j + (seed % 6) as usize, large_max);
+            large_js.push(format!("{{\"case\":{},\"variant\":{},\"pos\":\"{}\",\"len\":{},\"shape\":{}}}", i, jstr(var.name), p, n, jstr(what)));
+            (p, n)
+        } else {
+            let pos = if i < 7 { 0 } else if i < 14 { 64 } else { gen_pos(&mut rng, var) };
+            // C01 is about positions that can be seeked to (seek errors belong to C11): the IETF
+            // variant accepts positions up to and including 2^38
+            let pos = if var.v == 1 { pos.min(1u128 << 38) } else { pos };
+            let n = if i < 14 { 130 } else { gen_len(&mut rng, big, large_pm) };
+            (pos, n)
         };
-        *len_hist.entry(cls).or_default() += 1;
-        let mut data = vec![0u8; n];
-        rng.fill(&mut data);
-        let mut c = AnyCipher::new(var, &key, &nonce);
+        *len_hist.entry(len_class(n)).or_default() += 1;
+        {
+            // block counter within 5 blocks of k * 2^32, k >= 2, somewhere in the call
+            let (b0, b1) = (pos / 64, (pos + n as u128) / 64);
+            let k = (b1 + 5) >> 32;
+            if k >= 2 && k < (1 << 26) && (k << 32) + 5 >= b0 {
+                n_high_carry += 1;
+            }
+        }
+        let data = gen_data(&mut rng, n);
+        let mut c = match AnyCipher::try_new(var, &key, &nonce) {
+            Some(c) => c,
+            None => {
+                direct.push(format!("{{\"variant\":{},\"key\":{},\"nonce\":{},\"what\":\"the constructor panicked\"}}", jstr(var.name), jstr(&hex(&key)), jstr(&hex(&nonce))));
+                res_count[2] += 1;
+                js.push(format!("{{\"variant\":{},\"key\":{},\"nonce\":{},\"constructor\":\"panic\"}}", jstr(var.name), jstr(&hex(&key)), jstr(&hex(&nonce))));
+                cases.push(format!(
+                    "C01 {} {} {} {} {} {} {} {} {} {}",
+                    var.v, var.drounds, blit(&key), var.nonce_len, blit(&nonce), nlit_u128(pos), n, dlit(&data), 2, dlit(&data)
+                ));
+                continue;
+            }
+        };
         // every third case from 14 on: the instance has a past. A boundary-directed or random
         // history (seeks of every type, applies that reach / overshoot the end of the key stream,
-        // failed calls) runs first; the measured seek + apply must still give the specified bytes
-        // ("at every position", whatever was done before). The prefix is recorded for the replay.
+        // failed calls, multi-KiB applies) runs first; the measured seek + apply must still give the
+        // specified bytes ("at every position", whatever was done before). The prefix is recorded
+        // for the replay. A panic inside the prefix is a failure of its own, not a skipped case.
         let mut prefix_js = String::from("[]");
         if i >= 14 && i % 3 == 2 {
-            let ops = if (i / 3) % 2 == 0 { boundary_history(&mut rng, var, i / 6) } else { gen_history(&mut rng, var, "c02", 6, false) };
+            let ops = if (i / 3) % 2 == 0 { boundary_history(&mut rng, var, i / 6) } else { gen_history(&mut rng, var, "c02", 6, false, 30) };
             let mut pj = Vec::new();
+            let mut panicked: Option<String> = None;
             for op in ops.iter() {
-                match op {
+                let r = match op {
                     Op::Seek(t, v) => {
-                        let _ = c.seek(*t, *v);
-                        pj.push(format!("{{\"seek\":\"{}\",\"type\":\"{:?}\"}}", v, t));
+                        pj.push(format!("{{\"seek\":\"{}\",\"type\":\"{:?}\"}}", seek_math(*t, *v), t));
+                        c.seek(*t, *v)
                     }
                     Op::Apply(d) => {
                         let mut b = d.clone();
-                        let _ = c.apply(&mut b);
                         pj.push(format!("{{\"apply\":{}}}", d.len()));
+                        c.apply(&mut b)
                     }
                     Op::Pos(t) => {
-                        let _ = c.pos(*t);
+                        pj.push(format!("{{\"current_pos\":\"{:?}\"}}", t));
+                        c.pos(*t).0
                     }
+                };
+                if r == Res::Panic && panicked.is_none() {
+                    panicked = Some(pj.last().unwrap().clone());
                 }
             }
             prefix_js = format!("[{}]", pj.join(","));
+            if let Some(op) = panicked {
+                direct.push(format!(
+                    "{{\"variant\":{},\"key\":{},\"nonce\":{},\"prefix_history\":{},\"what\":\"an operation of the prefix history panicked\",\"op\":{}}}",
+                    jstr(var.name), jstr(&hex(&key)), jstr(&hex(&nonce)), prefix_js, op
+                ));
+            }
             n_prefixed += 1;
         }
-        let ty = if pos <= u64::MAX as u128 { Ty::U64 } else { Ty::U128 };
+        // the measured seek: any SeekNum type that can hold the position (u8 ... u128, usize, i32)
+        let ty = if i < 14 { Ty::U64 } else { pick_ty_for(&mut rng, pos as i128) };
+        *seek_types.entry(ty.name()).or_default() += 1;
         let sr = c.seek(ty, pos as i128);
         let mut buf = data.clone();
         let (res, outb) = if sr != Res::Ok {
@@ -392,34 +743,47 @@ fn run_c01(a: &Args) {
             (r, buf.clone())
         };
         res_count[res.code() as usize] += 1;
-        // direct statement: ok iff within the limit; on error the data is unchanged
+        // direct statement: ok iff within the limit; on error the data is unchanged; afterwards the
+        // object stands at pos + n (ok) or still at pos (err)
         let expect_ok = pos + n as u128 <= limit(var);
-        if (res == Res::Ok) != expect_ok || res == Res::Panic || (res == Res::Err && outb != data) {
+        let after = c.pos(Ty::U128);
+        let expect_after = if res == Res::Ok { pos + n as u128 } else { pos };
+        let after_ok = sr != Res::Ok || after == (Res::Ok, expect_after as i128);
+        if (res == Res::Ok) != expect_ok || res == Res::Panic || (res == Res::Err && outb != data) || !after_ok {
             direct.push(format!(
-                "{{\"variant\":{},\"pos\":\"{}\",\"len\":{},\"result\":{},\"expected_ok\":{}}}",
-                jstr(var.name), pos, n, jstr(res.s()), expect_ok
+                "{{\"variant\":{},\"key\":{},\"nonce\":{},\"prefix_history\":{},\"seek_type\":{},\"pos\":\"{}\",\"len\":{},\"seek_result\":{},\"result\":{},\"expected_ok\":{},\"current_pos_u128_after\":\"{} {}\",\"expected_position_after\":\"{}\"}}",
+                jstr(var.name), jstr(&hex(&key)), jstr(&hex(&nonce)), prefix_js, jstr(ty.name()), pos, n, jstr(sr.s()), jstr(res.s()), expect_ok, after.0.s(), after.1, expect_after
             ));
+        }
+        if res == Res::Ok {
+            // iterations of the 256-byte loop in this call (the pending block of a mid-block seek is consumed first)
+            let head = ((64 - (pos % 64)) % 64) as usize;
+            max_wide_iters = max_wide_iters.max(n.saturating_sub(head) / 256);
         }
         if n > 0 {
             distinct.insert((var.name, key.clone(), nonce.clone(), pos, data.clone()));
         }
         js.push(format!(
-            "{{\"variant\":{},\"key\":{},\"nonce\":{},\"prefix_history\":{},\"pos\":\"{}\",\"len\":{},\"data\":{},\"result\":{},\"out\":{}}}",
-            jstr(var.name), jstr(&hex(&key)), jstr(&hex(&nonce)), prefix_js, pos, n, jstr(&hex(&data)), jstr(res.s()), jstr(&hex(&outb))
+            "{{\"variant\":{},\"key\":{},\"nonce\":{},\"prefix_history\":{},\"seek_type\":{},\"pos\":\"{}\",\"len\":{},\"data\":{},\"result\":{},\"out\":{}}}",
+            jstr(var.name), jstr(&hex(&key)), jstr(&hex(&nonce)), prefix_js, jstr(ty.name()), pos, n, jstr(&hex(&data)), jstr(res.s()), jstr(&hex(&outb))
         ));
         cases.push(format!(
             "C01 {} {} {} {} {} {} {} {} {} {}",
-            var.v, var.drounds, nlit(&key), var.nonce_len, nlit(&nonce), nlit_u128(pos), n, nlit(&data), res.code(), nlit(&outb)
+            var.v, var.drounds, blit(&key), var.nonce_len, blit(&nonce), nlit_u128(pos), n, dlit(&data), res.code(), blit(&outb)
         ));
     }
-    write_shards(&out, shards, "From Coq Require Import NArith ZArith List.\nFrom CC Require Import Run.Runner Run.ChaCha.", "c01case", "run_c01", &cases);
+    write_shards(&out, shards, CASE_HEADER, "c01case", "run_c01", &cases);
     std::fs::write(format!("{}/cases.json", out), format!("[{}]", js.join(",\n"))).unwrap();
     let bv: Vec<String> = by_variant.iter().map(|(k, v)| format!("{}:{}", jstr(k), v)).collect();
     let lh: Vec<String> = len_hist.iter().map(|(k, v)| format!("{}:{}", jstr(k), v)).collect();
+    let st: Vec<String> = seek_types.iter().map(|(k, v)| format!("{}:{}", jstr(k), v)).collect();
+    direct.truncate(5);
+    // samples: two small cases (the large ones are in `large_cases` by position and length only)
+    let samples: Vec<String> = js.iter().skip(14).filter(|j| j.len() < 3000).take(2).cloned().collect();
     println!(
-        "{{\"evaluations\":{},\"distinct_nontrivial\":{},\"backend_level\":{},\"cases_after_a_prefix_history\":{},\"by_variant\":{{{}}},\"length_classes\":{{{}}},\"results\":{{\"ok\":{},\"err\":{},\"panic\":{}}},\"direct_failures\":[{}],\"samples\":[{}]}}",
-        count, distinct.len(), level, n_prefixed, bv.join(","), lh.join(","), res_count[0], res_count[1], res_count[2],
-        direct.join(","), js.iter().skip(14).take(2).cloned().collect::<Vec<_>>().join(",")
+        "{{\"evaluations\":{},\"distinct_nontrivial\":{},\"backend_level\":{},\"backend_level_read_back\":{},\"cases_after_a_prefix_history\":{},\"by_variant\":{{{}}},\"length_classes\":{{{}}},\"large_cases\":[{}],\"max_wide_loop_iterations_in_one_call\":{},\"measured_seek_types\":{{{}}},\"calls_next_to_k_2^32_blocks_k_ge_2\":{},\"results\":{{\"ok\":{},\"err\":{},\"panic\":{}}},\"direct_failures\":[{}],\"samples\":[{}]}}",
+        count, distinct.len(), level, readback, n_prefixed, bv.join(","), lh.join(","), large_js.join(","), max_wide_iters, st.join(","), n_high_carry,
+        res_count[0], res_count[1], res_count[2], direct.join(","), samples.join(",")
     );
 }
 
@@ -433,7 +797,8 @@ enum Op {
     Pos(Ty),
 }
 
-fn gen_history(rng: &mut Rng, var: &Variant, mode: &str, maxops: usize, big: bool) -> Vec<Op> {
+/// `large` = chance in 1000 that an apply takes its length from the 2-16 KiB class
+fn gen_history(rng: &mut Rng, var: &Variant, mode: &str, maxops: usize, big: bool, large: u64) -> Vec<Op> {
     let nops = rng.range(3, maxops as u64) as usize;
     let mut ops = Vec::new();
     for j in 0..nops {
@@ -441,15 +806,35 @@ fn gen_history(rng: &mut Rng, var: &Variant, mode: &str, maxops: usize, big: boo
         if (j == 0 && rng.chance(2, 3)) || k < 30 {
             // seek
             let r = rng.below(20);
+            let before = ops.len();
             if r == 0 {
                 // negative i32
                 ops.push(Op::Seek(Ty::I32, -(rng.below(1000) as i128) - 1));
             } else if r == 1 {
-                // beyond u64
-                ops.push(Op::Seek(Ty::U128, (1i128 << 64) + rng.below(1000) as i128));
-            } else if r == 2 && var.v == 1 {
-                // IETF: past the end
-                ops.push(Op::Seek(Ty::U64, (1i128 << 38) + 1 + rng.below(200) as i128));
+                // beyond u64: just past 2^64, far past it, and the upper half of u128 (carried as a negative i128)
+                let v: i128 = match rng.below(5) {
+                    0 | 1 => (1i128 << 64) + rng.below(1000) as i128,
+                    2 => (1i128 << 64) << rng.below(63),
+                    3 => i128::MAX - rng.below(3) as i128,
+                    _ => -1 - ((rng.u64() as i128) << rng.below(63)), // 2^128 - 1 - x: top bit set
+                };
+                ops.push(Op::Seek(Ty::U128, v));
+            } else if (r == 2 || r == 3) && var.v == 1 {
+                // IETF: past the end, near and far: a range test done on a truncated block count
+                // (or on the low 32 bits of the block count) accepts 2^39, 3*2^38, k*2^38 ...
+                let b38 = 1i128 << 38;
+                let v: i128 = match rng.below(10) {
+                    0 | 1 => b38 + 1 + rng.below(200) as i128,
+                    2 => b38 + (1 << 12) + rng.below(64) as i128,
+                    3 => 1i128 << 39,
+                    4 => 3 * b38 + rng.below(2) as i128 * rng.below(64) as i128,
+                    5 => (2 + rng.below(1 << 20) as i128) * b38 + rng.below(130) as i128, // block count = 0 mod 2^32
+                    6 => 1i128 << 63,
+                    7 => u64::MAX as i128 - rng.below(2) as i128 * rng.below(64) as i128,
+                    8 => (rng.u64() as i128) | (1i128 << (39 + rng.below(25))),
+                    _ => (1i128 << 64) + (rng.below(1 << 38) as i128), // u128 whose low 64 bits are in range
+                };
+                ops.push(Op::Seek(if v > u64::MAX as i128 { Ty::U128 } else if rng.chance(1, 4) { Ty::U128 } else if rng.chance(1, 3) { Ty::Usize } else { Ty::U64 }, v));
             } else {
                 let mut p = gen_pos(rng, var) as i128;
                 if mode == "c11" && var.v != 1 && rng.chance(1, 2) {
@@ -461,11 +846,13 @@ fn gen_history(rng: &mut Rng, var: &Variant, mode: &str, maxops: usize, big: boo
                     ops.push(Op::Apply(Vec::new())); // empty request right after a seek
                 }
             }
+            if ops.len() == before + 1 && r <= 3 && rng.chance(1, 2) {
+                // what current_pos says right after a seek that was (probably) refused
+                ops.push(Op::Pos(*rng.pick(&[Ty::U64, Ty::U128, Ty::Usize, Ty::U32])));
+            }
         } else if k < 85 {
-            let n = gen_len(rng, big);
-            let mut d = vec![0u8; n];
-            rng.fill(&mut d);
-            ops.push(Op::Apply(d));
+            let n = gen_len(rng, big, large);
+            ops.push(Op::Apply(gen_data(rng, n)));
         } else {
             ops.push(Op::Pos(*rng.pick(&TYS)));
         }
@@ -475,16 +862,14 @@ fn gen_history(rng: &mut Rng, var: &Variant, mode: &str, maxops: usize, big: boo
 
 /// Boundary-directed histories (deterministic apart from the data bytes): every boundary the
 /// design lists, for the given variant. `sel` picks one of them.
+const NKINDS: usize = 14;
 fn boundary_history(rng: &mut Rng, var: &Variant, sel: usize) -> Vec<Op> {
-    let fill = |rng: &mut Rng, n: usize| {
-        let mut d = vec![0u8; n];
-        rng.fill(&mut d);
-        Op::Apply(d)
-    };
+    let fill = |rng: &mut Rng, n: usize| Op::Apply(gen_data(rng, n));
     let b38: i128 = 1 << 38; // 2^32 blocks: end of the IETF stream, low counter word carry elsewhere
     let ietf = var.v == 1;
     let mut ops = Vec::new();
-    match sel % 12 {
+    let sub = sel / NKINDS; // second selector: varies what a kind does from one round to the next
+    match sel % NKINDS {
         0 => {
             // position 0, every type, empty and one-byte applies
             for t in TYS.iter() {
@@ -498,10 +883,10 @@ fn boundary_history(rng: &mut Rng, var: &Variant, sel: usize) -> Vec<Op> {
         1 => {
             // mid-block seeks into block 0 with every seek type; short applies that stay in / leave the block
             let r = 1 + rng.below(63) as i128;
-            let t = TYS[(sel / 12) % 7];
+            let t = TYS[sub % 7];
             ops.push(Op::Seek(t, r));
             ops.push(Op::Pos(Ty::U16));
-            if (sel / 12) % 2 == 1 {
+            if sub % 2 == 1 {
                 ops.push(fill(rng, 0)); // an empty request while the block of the seek is still pending
                 ops.push(Op::Pos(Ty::U16));
             }
@@ -520,6 +905,9 @@ fn boundary_history(rng: &mut Rng, var: &Variant, sel: usize) -> Vec<Op> {
             ops.push(Op::Seek(Ty::I32, i32::MIN as i128));
             ops.push(Op::Seek(Ty::U128, 1i128 << 64));
             ops.push(Op::Seek(Ty::U128, i128::MAX));
+            ops.push(Op::Seek(Ty::U128, -1));              // u128::MAX
+            ops.push(Op::Seek(Ty::U128, i128::MIN));       // 2^127
+            ops.push(Op::Seek(Ty::U128, -(1i128 << 64)));  // 2^128 - 2^64: low 64 bits zero
             ops.push(Op::Pos(Ty::U64));
             ops.push(fill(rng, 70));
             ops.push(Op::Seek(Ty::I32, i32::MAX as i128));
@@ -560,6 +948,21 @@ fn boundary_history(rng: &mut Rng, var: &Variant, sel: usize) -> Vec<Op> {
             ops.push(Op::Seek(Ty::U64, b38 + 1));
             ops.push(Op::Seek(Ty::U128, b38 + 64));
             ops.push(Op::Pos(Ty::U64));
+            // far past the end of the 32-bit-counter stream (accepted positions of the 64-bit ones):
+            // values whose block count is 0 modulo 2^32, or has no low bits at all
+            let far: [(Ty, i128); 6] = [
+                (Ty::U64, 1 << 39),
+                (Ty::U64, 3 * b38),
+                (Ty::Usize, b38 + (1 << 12)),
+                (Ty::U64, 1 << 63),
+                (Ty::U64, u64::MAX as i128),
+                (Ty::U128, (1 << 64) + 64),
+            ];
+            for j in 0..3 {
+                let (t, v) = far[(sub + 2 * j) % 6];
+                ops.push(Op::Seek(t, v));
+                ops.push(Op::Pos(Ty::U128));
+            }
             ops.push(Op::Seek(Ty::U64, b38 - 64));
             ops.push(fill(rng, 64));
             ops.push(fill(rng, 1));
@@ -571,6 +974,10 @@ fn boundary_history(rng: &mut Rng, var: &Variant, sel: usize) -> Vec<Op> {
             // mid-block seek into the last block before the boundary, failing apply, then what follows
             let r = 1 + rng.below(63) as i128;
             ops.push(Op::Seek(Ty::U64, b38 - 64 + r));
+            if sub % 2 == 1 {
+                ops.push(fill(rng, 0)); // empty request: the lazy fill of the LAST block runs here
+                ops.push(Op::Pos(Ty::U64));
+            }
             ops.push(fill(rng, (64 - r) as usize + 1)); // IETF: Err after the lazy fill has run
             ops.push(Op::Pos(Ty::U64));
             ops.push(fill(rng, (64 - r) as usize));
@@ -622,6 +1029,35 @@ fn boundary_history(rng: &mut Rng, var: &Variant, sel: usize) -> Vec<Op> {
                 ops.push(fill(rng, n));
                 ops.push(Op::Pos(Ty::U64));
             }
+        }
+        12 => {
+            // large input from a mid-block seek: the pending block first, then 8..13 (32 every fourth round) iterations of
+            // the 256-byte loop in ONE call, then a tail; a second multi-KiB call continues mid-block
+            let r = 1 + rng.below(63) as i128;
+            let base: i128 = match sub % 3 { 0 => 64 * rng.below(4) as i128, 1 => b38 - 64 * (20 + rng.below(80) as i128), _ => 64 * rng.below(1 << 30) as i128 };
+            ops.push(Op::Seek(Ty::U64, base + r));
+            let n1 = 2048 + 256 * rng.below(5) as usize + rng.below(256) as usize;
+            ops.push(fill(rng, n1));
+            ops.push(Op::Pos(Ty::U64));
+            let n2 = if sub % 4 == 1 { 8192 + rng.below(64) as usize } else { 2048 + rng.below(1024) as usize };
+            ops.push(fill(rng, n2));
+            ops.push(Op::Pos(Ty::U128));
+            ops.push(fill(rng, 1));
+        }
+        13 => {
+            // 4 KiB (and more) across 2^32 blocks. 64-bit variants: the low counter word carries in
+            // the middle of the wide run. IETF: one call that would cross the end is refused whole,
+            // the same call shortened to end exactly at 2^38 succeeds, one more byte is refused.
+            let n = 4096 + 256 * rng.below(3) as usize + if sub % 2 == 0 { 0 } else { rng.below(256) as usize };
+            let back = 1 + rng.below(n as u64 - 1) as i128;
+            ops.push(Op::Seek(Ty::U64, b38 - back));
+            ops.push(fill(rng, n));
+            ops.push(Op::Pos(Ty::U64));
+            ops.push(fill(rng, back as usize));
+            ops.push(Op::Pos(Ty::U64));
+            ops.push(fill(rng, 1));
+            ops.push(fill(rng, 0));
+            ops.push(Op::Pos(Ty::U128));
         }
         _ => {
             // seek backwards into a block already consumed, and to the same place twice
@@ -695,11 +1131,13 @@ fn relative_checks(rng: &mut Rng, var: &Variant, key: &[u8], nonce: &[u8], ops: 
                     let mut cuts = Vec::new();
                     let mut all_ok = true;
                     while at < buf.len() {
-                        let step = match rng.below(5) {
+                        let step = match rng.below(7) {
                             0 => 1,
                             1 => 64,
                             2 => 1 + rng.below(63) as usize,
                             3 => 256,
+                            4 => 512 + 256 * rng.below(3) as usize,      // several wide iterations per piece
+                            5 => 1024 + rng.below(2048) as usize,
                             _ => 1 + rng.below(buf.len() as u64) as usize,
                         }
                         .min(buf.len() - at);
@@ -782,10 +1220,21 @@ struct HistResult {
     nontrivial: bool,
     nops: usize,
     errs: usize,
+    max_apply: usize,
+    large_applies: usize,
+    empty_applies: usize,
+    failed_applies: usize,
+    failed_seeks: usize,
+    far_ietf_seeks: usize,
+    u128_top_half_seeks: usize,
+    probes: usize,
 }
 
+/// blocks past the first one of a call for which the block oracle is filled in (one call of the
+/// large class spans 257 blocks)
+const ORACLE_SPAN: u128 = 700;
+
 fn run_history(var: &Variant, key: &[u8], nonce: &[u8], ops: &[Op]) -> HistResult {
-    let mut c = AnyCipher::new(var, key, nonce);
     let lim = limit(var);
     let mut pos: u128 = 0; // abstract position
     let mut oracle: BTreeMap<u128, Vec<u8>> = BTreeMap::new();
@@ -795,6 +1244,21 @@ fn run_history(var: &Variant, key: &[u8], nonce: &[u8], ops: &[Op]) -> HistResul
     let mut errs = 0;
     let mut applied = 0usize;
     let mut seeks_mid = false;
+    let (mut max_apply, mut large_applies, mut empty_applies, mut failed_applies, mut failed_seeks) = (0usize, 0usize, 0usize, 0usize, 0usize);
+    let (mut far_ietf_seeks, mut top_half, mut probes) = (0usize, 0usize, 0usize);
+    let mut c = match AnyCipher::try_new(var, key, nonce) {
+        Some(c) => c,
+        None => {
+            let json = format!("{{\"variant\":{},\"key\":{},\"nonce\":{},\"ops\":[]}}", jstr(var.name), jstr(&hex(key)), jstr(&hex(nonce)));
+            return HistResult {
+                coq: format!("Hist {} {} [] [HSeek 0%Z 2]", var.v == 1, dlist(&dwords(var, nonce, 0))),
+                json,
+                failures: vec!["{\"what\":\"the constructor panicked\"}".to_string()],
+                nontrivial: false, nops: 0, errs: 1, max_apply: 0, large_applies: 0, empty_applies: 0, failed_applies: 0,
+                failed_seeks: 0, far_ietf_seeks: 0, u128_top_half_seeks: 0, probes: 0,
+            };
+        }
+    };
     let mut need = |k: u128, oracle: &mut BTreeMap<u128, Vec<u8>>| {
         if !oracle.contains_key(&k) {
             if let Some(b) = oracle_block(var, key, nonce, k) {
@@ -802,33 +1266,97 @@ fn run_history(var: &Variant, key: &[u8], nonce: &[u8], ops: &[Op]) -> HistResul
             }
         }
     };
+    // After a refused call nothing may have moved. current_pos is `&self`, so asking does not
+    // disturb the history; what the object would do NEXT is asked of a fork (a new instance that
+    // gets a clone of the Buffer): one more byte (or, at the very end, the refusal of one more
+    // byte), and the bytes up to the end of the stream when that is near.
+    let after_refusal = |c: &AnyCipher, j: usize, what: &str, pos: u128, oracle: &mut BTreeMap<u128, Vec<u8>>, failures: &mut Vec<String>,
+                         need: &mut dyn FnMut(u128, &mut BTreeMap<u128, Vec<u8>>)| {
+        let got = c.pos(Ty::U128);
+        if got != (Res::Ok, pos as i128) {
+            failures.push(format!("{{\"op\":{},\"what\":\"after the refused {} current_pos::<u128>() returns {} {}, the position before the call was {}\"}}", j, what, got.0.s(), got.1, pos));
+        }
+        let mut f = match c.fork(var, key, nonce) {
+            Some(f) => f,
+            None => {
+                failures.push(format!("{{\"op\":{},\"what\":\"cloning the Buffer after the refused {} panicked\"}}", j, what));
+                return;
+            }
+        };
+        let room = lim - pos.min(lim);
+        let m: usize = if room == 0 { 1 } else if room <= 4096 { room as usize } else { 1 };
+        for k in pos / 64..=(pos + m as u128 - 1) / 64 {
+            need(k, oracle);
+        }
+        let mut b = vec![0x3cu8; m];
+        let r = f.apply(&mut b);
+        if room == 0 {
+            if r != Res::Err || b != vec![0x3cu8; m] {
+                failures.push(format!("{{\"op\":{},\"what\":\"after the refused {} at the end of the stream, apply(1 byte) on a clone of the object returned {} (expected err, data untouched)\"}}", j, what, r.s()));
+            }
+        } else {
+            let mut good = r == Res::Ok;
+            for (i, x) in b.iter().enumerate() {
+                let p = pos + i as u128;
+                match oracle.get(&(p / 64)) {
+                    Some(blk) => good &= *x == 0x3c ^ blk[(p % 64) as usize],
+                    None => good = false,
+                }
+            }
+            if !good {
+                failures.push(format!("{{\"op\":{},\"what\":\"after the refused {} at position {}, apply({} bytes) on a clone of the object returned {} / bytes that are not the key stream from {} on\"}}", j, what, pos, m, r.s(), pos));
+            }
+        }
+    };
     for (j, op) in ops.iter().enumerate() {
         match op {
             Op::Seek(ty, v) => {
                 let r = c.seek(*ty, *v);
-                let in_range = *v >= 0 && (*v as u128) <= u64::MAX as u128 && (var.v != 1 || (*v as u128) <= lim);
+                let target = seek_u64(*ty, *v);
+                let in_range = match target {
+                    Some(t) => var.v != 1 || (t as u128) <= lim,
+                    None => false,
+                };
+                if var.v == 1 && target.map(|t| t as u128 > lim + 256).unwrap_or(false) {
+                    far_ietf_seeks += 1;
+                }
+                if *ty == Ty::U128 && *v < 0 {
+                    top_half += 1;
+                }
                 let expect = if in_range { Res::Ok } else { Res::Err };
                 if r != expect {
-                    failures.push(format!("{{\"op\":{},\"what\":\"seek::<{}>({}) returned {}, expected {}\"}}", j, ty.name(), v, r.s(), expect.s()));
+                    failures.push(format!("{{\"op\":{},\"what\":\"seek::<{}>({}) returned {}, expected {}\"}}", j, ty.name(), seek_math(*ty, *v), r.s(), expect.s()));
                 }
                 if r == Res::Ok {
-                    pos = *v as u128;
+                    pos = target.map(|t| t as u128).unwrap_or(pos);
                     if pos % 64 != 0 {
                         seeks_mid = true;
                     }
                 }
                 if r != Res::Ok {
                     errs += 1;
+                    failed_seeks += 1;
                 }
-                hops.push(format!("HSeek ({})%Z {}", v, r.code()));
-                jops.push(format!("{{\"seek\":\"{}\",\"type\":{},\"result\":{}}}", v, jstr(ty.name()), jstr(r.s())));
+                if r == Res::Err {
+                    probes += 1;
+                    after_refusal(&c, j, "seek", pos, &mut oracle, &mut failures, &mut need);
+                }
+                hops.push(format!("HSeek ({})%Z {}", seek_math(*ty, *v), r.code()));
+                jops.push(format!("{{\"seek\":\"{}\",\"type\":{},\"result\":{}}}", seek_math(*ty, *v), jstr(ty.name()), jstr(r.s())));
             }
             Op::Apply(data) => {
                 let n = data.len() as u128;
+                max_apply = max_apply.max(data.len());
+                if data.len() >= 2048 {
+                    large_applies += 1;
+                }
+                if data.is_empty() {
+                    empty_applies += 1;
+                }
                 // blocks the implementation may generate (incl. the lazily pending one)
                 let first = pos / 64;
                 let last = (pos + n.max(1) - 1) / 64;
-                for k in first..=last.min(first + 40) {
+                for k in first..=last.min(first + ORACLE_SPAN) {
                     need(k, &mut oracle);
                 }
                 let mut buf = data.clone();
@@ -843,29 +1371,36 @@ fn run_history(var: &Variant, key: &[u8], nonce: &[u8], ops: &[Op]) -> HistResul
                         failures.push(format!("{{\"op\":{},\"what\":\"failed apply({} bytes) at position {} modified the data\"}}", j, n, pos));
                     }
                 } else {
-                    // every byte must be data xor keystream(absolute position)
-                    let mut ok = true;
+                    // every byte must be data xor keystream(absolute position); a block the oracle
+                    // cannot produce (fresh instance, seek to the block, apply 64 bytes fails or
+                    // panics) is a failure of its own, never a skipped comparison
                     for (i, b) in buf.iter().enumerate() {
                         let p = pos + i as u128;
                         match oracle.get(&(p / 64)) {
                             Some(blk) => {
                                 if *b != data[i] ^ blk[(p % 64) as usize] {
-                                    ok = false;
                                     failures.push(format!("{{\"op\":{},\"what\":\"apply({} bytes) at position {}: byte {} is not data xor keystream[{}] (oracle: fresh instance seeked to the block)\"}}", j, n, pos, i, p));
                                     break;
                                 }
                             }
-                            None => {}
+                            None => {
+                                failures.push(format!("{{\"op\":{},\"what\":\"apply({} bytes) at position {} succeeded, but a fresh instance cannot produce block {} (seek + apply of 64 bytes is refused or panics)\"}}", j, n, pos, p / 64));
+                                break;
+                            }
                         }
                     }
-                    let _ = ok;
                     pos += n;
                     applied += data.len();
                 }
                 if r != Res::Ok {
                     errs += 1;
+                    failed_applies += 1;
                 }
-                hops.push(format!("HApply {} {} {} {}", data.len(), nlit(data), r.code(), nlit(&buf)));
+                if r == Res::Err {
+                    probes += 1;
+                    after_refusal(&c, j, "apply", pos, &mut oracle, &mut failures, &mut need);
+                }
+                hops.push(format!("HApply {} {} {} {}", data.len(), dlit(data), r.code(), blit(&buf)));
                 jops.push(format!("{{\"apply\":{},\"data\":{},\"result\":{},\"out\":{}}}", data.len(), jstr(&hex(data)), jstr(r.s()), jstr(&hex(&buf))));
             }
             Op::Pos(ty) => {
@@ -885,10 +1420,29 @@ fn run_history(var: &Variant, key: &[u8], nonce: &[u8], ops: &[Op]) -> HistResul
             }
         }
     }
+    // the end of every history: a clone of the Buffer (whatever is pending or left in it) continues
+    // exactly like the object itself
+    {
+        let room = lim - pos.min(lim);
+        let m = room.min(70) as usize;
+        match c.fork(var, key, nonce) {
+            None => failures.push("{\"what\":\"cloning the Buffer at the end of the history panicked\"}".to_string()),
+            Some(mut f) => {
+                let mut x = vec![0xc3u8; m];
+                let mut y = x.clone();
+                let rx = c.apply(&mut x);
+                let ry = f.apply(&mut y);
+                if rx != ry || x != y || c.pos(Ty::U128) != f.pos(Ty::U128) {
+                    failures.push(format!("{{\"what\":\"at the end of the history (position {}) apply({} bytes) on a clone of the Buffer gives {} and other bytes / position than on the object itself ({})\"}}", pos, m, ry.s(), rx.s()));
+                }
+                probes += 1;
+            }
+        }
+    }
     let d0 = dwords(var, nonce, 0);
     let orc: Vec<String> = oracle
         .iter()
-        .map(|(k, b)| format!("({}, {})", nlit_u128(dkey(&dwords(var, nonce, *k))), nlit(b)))
+        .map(|(k, b)| format!("({}, {})", nlit_u128(dkey(&dwords(var, nonce, *k))), blit(b)))
         .collect();
     let coq = format!(
         "Hist {} {} [{}] [{}]",
@@ -901,7 +1455,10 @@ fn run_history(var: &Variant, key: &[u8], nonce: &[u8], ops: &[Op]) -> HistResul
         "{{\"variant\":{},\"key\":{},\"nonce\":{},\"ops\":[{}]}}",
         jstr(var.name), jstr(&hex(key)), jstr(&hex(nonce)), jops.join(",")
     );
-    HistResult { coq, json, failures, nontrivial: applied > 0 && (seeks_mid || ops.len() > 3), nops: ops.len(), errs }
+    HistResult {
+        coq, json, failures, nontrivial: applied > 0 && (seeks_mid || ops.len() > 3), nops: ops.len(), errs,
+        max_apply, large_applies, empty_applies, failed_applies, failed_seeks, far_ietf_seeks, u128_top_half_seeks: top_half, probes,
+    }
 }
 
 fn run_hist(a: &Args) {
@@ -912,12 +1469,11 @@ fn run_hist(a: &Args) {
     let mode = a.str("mode", "c02");
     let maxops = a.u64("maxops", 10) as usize;
     let big = a.u64("big", 0) == 1;
+    // chance in 1000 that an apply of a random history is 2-16 KiB
+    let large_pm = a.u64("large-permille", 12);
     // back end: 0 = whatever the CPU detection picks, 1..5 = SSE2, SSSE3, SSE4.1, AVX, AVX2 (hook H1)
     let level = a.u64("level", 0) as u8;
-    #[cfg(all(cryptocorrosion_verif, not(feature = "no_simd")))]
-    ppv_lite86::x86_64::verif::set_level(level);
-    #[cfg(feature = "no_simd")]
-    let _ = level;
+    let readback = force_level(level);
     let mut rng = Rng::new(seed ^ 0xc02 ^ (mode.len() as u64) << 20 ^ if mode == "c11" { 0x1100 } else { 0 });
     let mut cases = Vec::new();
     let mut js = Vec::new();
@@ -926,9 +1482,6 @@ fn run_hist(a: &Args) {
     let mut total_ops = 0;
     let mut total_errs = 0;
     let mut by_variant: BTreeMap<&str, usize> = BTreeMap::new();
-    let nboundary = (a.u64("boundary", 168) as usize).min(count.saturating_sub(6));
-    let mut boundary_kinds = 0usize;
-    let mut relative_runs = 0usize;
     // corpus: minimised histories of defects found earlier (D1-D4) run first
     let corpus: Vec<(usize, Vec<Op>)> = vec![
         (2, vec![Op::Seek(Ty::U8, 10), Op::Apply(vec![1, 2, 3, 4, 5]), Op::Pos(Ty::U64)]),
@@ -938,18 +1491,35 @@ fn run_hist(a: &Args) {
         (2, vec![Op::Apply(vec![1; 70]), Op::Pos(Ty::U8), Op::Seek(Ty::I32, -1), Op::Apply(vec![2; 300]), Op::Pos(Ty::I32)]),
         (6, vec![Op::Seek(Ty::U64, (1 << 38) - 100), Op::Apply(vec![3; 700]), Op::Pos(Ty::U128)]),
     ];
+    // at most `--boundary` boundary histories, and never more than 4/5 of what the corpus leaves:
+    // every run, however short, has random histories too
+    let room = count.saturating_sub(corpus.len());
+    let nboundary = (a.u64("boundary", 168) as usize).min(room - room / 5);
+    let mut boundary_n = 0usize;
+    let mut by_kind = [0usize; NKINDS];
+    let mut relative_runs = 0usize;
+    let (mut max_apply, mut large_applies, mut empty_applies, mut failed_applies, mut failed_seeks) = (0usize, 0usize, 0usize, 0usize, 0usize);
+    let (mut far_ietf, mut top_half, mut probes) = (0usize, 0usize, 0usize);
     for i in 0..count {
         let (var, ops) = if i < corpus.len() {
             (&VARIANTS[corpus[i].0], corpus[i].1.clone())
         } else if i < corpus.len() + nboundary {
-            // boundary-directed stream: 12 kinds x 7 variants (IETF twice as often in c11 mode)
+            // boundary-directed stream, the kinds ROUND-ROBIN (kind = k mod 14, so a run of 14 has
+            // them all); from one round to the next the variant and the kind's second selector
+            // move on (c11 mode: every other round is IETF)
             let k = i - corpus.len();
-            let var = if mode == "c11" && k % 2 == 1 { &VARIANTS[3] } else { &VARIANTS[(k / 2) % 7] };
-            boundary_kinds += 1;
-            (var, boundary_history(&mut rng, var, k / 14 + 12 * (k % 7)))
+            let (kind, round) = (k % NKINDS, k / NKINDS);
+            let var = if mode == "c11" {
+                if round % 2 == 1 { &VARIANTS[3] } else { &VARIANTS[(kind + round / 2) % 7] }
+            } else {
+                &VARIANTS[(kind + round) % 7]
+            };
+            boundary_n += 1;
+            by_kind[kind] += 1;
+            (var, boundary_history(&mut rng, var, kind + NKINDS * round))
         } else {
             let var = if mode == "c11" && rng.chance(1, 2) { &VARIANTS[3] } else { &VARIANTS[i % 7] };
-            (var, gen_history(&mut rng, var, &mode, maxops, big))
+            (var, gen_history(&mut rng, var, &mode, maxops, big, large_pm))
         };
         *by_variant.entry(var.name).or_default() += 1;
         let key = rng.bytes(32);
@@ -962,6 +1532,14 @@ fn run_hist(a: &Args) {
         }
         total_ops += r.nops;
         total_errs += r.errs;
+        max_apply = max_apply.max(r.max_apply);
+        large_applies += r.large_applies;
+        empty_applies += r.empty_applies;
+        failed_applies += r.failed_applies;
+        failed_seeks += r.failed_seeks;
+        far_ietf += r.far_ietf_seeks;
+        top_half += r.u128_top_half_seeks;
+        probes += r.probes;
         for f in &r.failures {
             direct.push(format!("{{\"history\":{},\"failure\":{}}}", r.json, f));
         }
@@ -971,14 +1549,18 @@ fn run_hist(a: &Args) {
         cases.push(r.coq);
         js.push(r.json);
     }
-    write_shards(&out, shards, "From Coq Require Import NArith ZArith List.\nFrom CC Require Import Run.Runner Run.ChaCha.", "histcase", "run_hist", &cases);
+    write_shards(&out, shards, CASE_HEADER, "histcase", "run_hist", &cases);
     std::fs::write(format!("{}/cases.json", out), format!("[{}]", js.join(",\n"))).unwrap();
     let bv: Vec<String> = by_variant.iter().map(|(k, v)| format!("{}:{}", jstr(k), v)).collect();
+    let bk: Vec<String> = by_kind.iter().enumerate().map(|(k, v)| format!("\"{}\":{}", k, v)).collect();
     direct.truncate(5);
+    let samples: Vec<String> = js.iter().skip(6).filter(|j| j.len() < 4000).take(2).cloned().collect();
     println!(
-        "{{\"evaluations\":{},\"distinct_nontrivial\":{},\"mode\":{},\"by_variant\":{{{}}},\"corpus_histories\":{},\"boundary_histories\":{},\"random_histories\":{},\"histories_replayed_rechunked_reseeked_twice_fresh\":{},\"total_ops\":{},\"ops_with_err_or_panic\":{},\"direct_failures\":[{}],\"samples\":[{}]}}",
-        count, distinct.len(), jstr(&mode), bv.join(","), corpus.len().min(count), boundary_kinds, count.saturating_sub(corpus.len() + boundary_kinds), relative_runs, total_ops, total_errs,
-        direct.join(","), js.iter().skip(6).take(2).cloned().collect::<Vec<_>>().join(",")
+        "{{\"evaluations\":{},\"distinct_nontrivial\":{},\"mode\":{},\"backend_level\":{},\"backend_level_read_back\":{},\"by_variant\":{{{}}},\"corpus_histories\":{},\"boundary_histories\":{},\"boundary_histories_by_kind\":{{{}}},\"random_histories\":{},\"histories_replayed_rechunked_reseeked_twice_fresh\":{},\"total_ops\":{},\"ops_with_err_or_panic\":{},\"refused_applies\":{},\"refused_seeks\":{},\"ietf_seeks_far_past_the_end\":{},\"u128_seeks_with_top_bit\":{},\"empty_applies\":{},\"applies_of_2048_bytes_or_more\":{},\"longest_apply\":{},\"probes_on_a_clone_of_the_buffer\":{},\"direct_failures\":[{}],\"samples\":[{}]}}",
+        count, distinct.len(), jstr(&mode), level, readback, bv.join(","), corpus.len().min(count), boundary_n, bk.join(","),
+        count.saturating_sub(corpus.len().min(count) + boundary_n), relative_runs, total_ops, total_errs,
+        failed_applies, failed_seeks, far_ietf, top_half, empty_applies, large_applies, max_apply, probes,
+        direct.join(","), samples.join(",")
     );
 }
 
@@ -1001,6 +1583,34 @@ fn gen_ctr(rng: &mut Rng) -> u64 {
     }
 }
 
+/// `ChaCha::new(key, nonce)` whose stream id is `id` and whose 64-bit counter is `ctr`, built in
+/// one of three ways (how = 0: an 8-byte nonce carries the id, the counter is set; 1: a 12-byte
+/// nonce carries the high counter word and the id, the counter is set; 2: all-zero nonce, both
+/// parameters set: the only way used before)
+fn c14_state(k: &[u8; 32], ctr: u64, id: u64, how: usize) -> ChaCha {
+    match how % 3 {
+        0 => {
+            let mut s = ChaCha::new(k, &id.to_le_bytes());
+            s.set_stream_param(0, ctr);
+            s
+        }
+        1 => {
+            let mut n = [0u8; 12];
+            n[0..4].copy_from_slice(&((ctr >> 32) as u32).to_le_bytes());
+            n[4..12].copy_from_slice(&id.to_le_bytes());
+            let mut s = ChaCha::new(k, &n);
+            s.set_stream_param(0, ctr);
+            s
+        }
+        _ => {
+            let mut s = ChaCha::new(k, &[0u8; 8]);
+            s.set_stream_param(1, id);
+            s.set_stream_param(0, ctr);
+            s
+        }
+    }
+}
+
 fn run_c14(a: &Args) {
     let seed = a.u64("seed", 1);
     let count = a.u64("count", 100) as usize;
@@ -1008,16 +1618,15 @@ fn run_c14(a: &Args) {
     let out = a.str("out", "/tmp/c14");
     // back end: 0 = whatever the CPU detection picks, 1..5 = SSE2, SSSE3, SSE4.1, AVX, AVX2 (hook H1)
     let level = a.u64("level", 0) as u8;
-    #[cfg(all(cryptocorrosion_verif, not(feature = "no_simd")))]
-    ppv_lite86::x86_64::verif::set_level(level);
-    #[cfg(feature = "no_simd")]
-    let _ = level;
+    let readback = force_level(level);
+    let (sel_dispatch, sel_light) = probe::selected();
     let mut rng = Rng::new(seed ^ 0xc14);
     let mut cases = Vec::new();
     let mut js = Vec::new();
     let mut direct = Vec::new();
     let mut distinct = HashSet::new();
     let mut by_dr = [0usize; 11];
+    let mut by_how = [0usize; 3];
     let mut classes: BTreeMap<&str, usize> = BTreeMap::new();
     // boundary counters first (14 values x 11 round counts are all met within the first 154 cases):
     // the low-word carry lands in lane 0, 1, 2, 3 or in the final add_pos; the wrap at 2^64 likewise
@@ -1038,16 +1647,23 @@ fn run_c14(a: &Args) {
         hi | 0xffff_fffe,
         hi | 0xffff_ffff,
     ];
+    // the continuation (five more blocks on each object) meets the carry a second time when the
+    // counter is 5..9 below a boundary: two of these per round count after the 154 boundary cases
+    let late: [u64; 6] = [(1u64 << 32) - 6, (1u64 << 32) - 8, u64::MAX - 6, u64::MAX - 8, (hi | 0xffff_fff9), (1u64 << 33) - 7];
     for i in 0..count {
         let key = rng.bytes(32);
         let dr = (i % 11) as u32;
         by_dr[dr as usize] += 1;
-        let ctr = if i < 154 { boundary[i % 14] } else { gen_ctr(&mut rng) };
+        let ctr = if i < 154 { boundary[i % 14] } else if i < 176 { late[(i - 154) % 6] } else { gen_ctr(&mut rng) };
         let id = if i % 5 == 0 { u64::MAX } else { rng.word64() };
+        let how = (i / 2) % 3;
+        by_how[how] += 1;
         let cls = if ctr > u64::MAX - 4 {
             "wraps_at_2^64"
         } else if (ctr as u32) > 0xffff_fffb {
             "low_word_carry"
+        } else if ctr > u64::MAX - 9 || (ctr as u32) > 0xffff_fff6 {
+            "carry_or_wrap_in_the_continuation"
         } else if ctr < 16 {
             "small"
         } else {
@@ -1056,51 +1672,110 @@ fn run_c14(a: &Args) {
         *classes.entry(cls).or_default() += 1;
         let mut k = [0u8; 32];
         k.copy_from_slice(&key);
-        let mut s = ChaCha::new(&k, &[0u8; 8]);
-        s.set_stream_param(1, id);
-        s.set_stream_param(0, ctr);
-        let d = state_d(&s);
+        // the state the property speaks about: key, 64-bit counter, 64-bit stream id. The d words
+        // sent to the model are computed HERE from (ctr, id), not read back from the implementation.
+        let d = [ctr as u32, (ctr >> 32) as u32, id as u32, (id >> 32) as u32];
+        let made = catch_unwind(AssertUnwindSafe(|| c14_state(&k, ctr, id, how)));
+        let s = match made {
+            Ok(s) => s,
+            Err(_) => {
+                direct.push(format!("{{\"key\":{},\"counter\":\"{}\",\"stream_id\":\"{}\",\"construction\":{},\"what\":\"ChaCha::new / set_stream_param panicked\"}}", jstr(&hex(&key)), ctr, id, how));
+                continue;
+            }
+        };
+        let constructed_ok = state_d(&s) == d;
         let mut w = s.clone();
         let mut n = s.clone();
+        // output buffers start as a pattern that differs from case to case: a short write, or a
+        // back end that combines with what is in the buffer, leaves a trace
+        let pat = |j: usize| (0xa5u8).wrapping_add((i * 29 + j * 7) as u8);
         let mut wide = [0u8; 256];
         let mut narrow = [0u8; 256];
+        for j in 0..256 {
+            wide[j] = pat(j);
+            narrow[j] = pat(j + 3);
+        }
         let rw = catch_unwind(AssertUnwindSafe(|| w.refill4(dr, &mut wide)));
         let rn = catch_unwind(AssertUnwindSafe(|| {
             for j in 0..4 {
                 let mut b = [0u8; 64];
+                b.copy_from_slice(&narrow[64 * j..64 * j + 64]);
                 n.refill(dr, &mut b);
                 narrow[64 * j..64 * j + 64].copy_from_slice(&b);
             }
         }));
         let dw = state_d(&w);
         let dn = state_d(&n);
-        // the counter advanced by four (mod 2^64) and nothing else moved
+        // the whole state, key rows included: w == n (derived PartialEq over b, c, d), and both equal
+        // a state made from scratch with the counter four further
         let c4 = ctr.wrapping_add(4);
+        let fresh4 = catch_unwind(AssertUnwindSafe(|| c14_state(&k, c4, id, 2)));
+        let eq_wn = w == n;
+        let eq_fresh = match &fresh4 {
+            Ok(f) => w == *f && n == *f && w.stream64_eq(f),
+            Err(_) => false,
+        };
+        // the counter advanced by four (mod 2^64) and nothing else moved
         let advanced = dn == [c4 as u32, (c4 >> 32) as u32, id as u32, (id >> 32) as u32];
-        if rw.is_err() || rn.is_err() || wide != narrow || dw != dn || !advanced {
+        // continuation on the SAME objects, the two paths mixed: w: refill4, refill; n: refill, refill4
+        let mut wide2 = [0u8; 320];
+        let mut narrow2 = [0u8; 320];
+        for j in 0..320 {
+            wide2[j] = pat(j + 11);
+            narrow2[j] = pat(j + 17);
+        }
+        let rw2 = catch_unwind(AssertUnwindSafe(|| {
+            let mut b4 = [0u8; 256];
+            b4.copy_from_slice(&wide2[..256]);
+            w.refill4(dr, &mut b4);
+            wide2[..256].copy_from_slice(&b4);
+            let mut b1 = [0u8; 64];
+            b1.copy_from_slice(&wide2[256..]);
+            w.refill(dr, &mut b1);
+            wide2[256..].copy_from_slice(&b1);
+        }));
+        let rn2 = catch_unwind(AssertUnwindSafe(|| {
+            let mut b1 = [0u8; 64];
+            b1.copy_from_slice(&narrow2[..64]);
+            n.refill(dr, &mut b1);
+            narrow2[..64].copy_from_slice(&b1);
+            let mut b4 = [0u8; 256];
+            b4.copy_from_slice(&narrow2[64..]);
+            n.refill4(dr, &mut b4);
+            narrow2[64..].copy_from_slice(&b4);
+        }));
+        let dw2 = state_d(&w);
+        let dn2 = state_d(&n);
+        let c9 = ctr.wrapping_add(9);
+        let advanced9 = dn2 == [c9 as u32, (c9 >> 32) as u32, id as u32, (id >> 32) as u32];
+        let eq_wn2 = w == n;
+        let panicked = rw.is_err() || rn.is_err() || rw2.is_err() || rn2.is_err();
+        if panicked || !constructed_ok || wide != narrow || dw != dn || !advanced || !eq_wn || !eq_fresh || wide2 != narrow2 || dw2 != dn2 || !advanced9 || !eq_wn2 {
             direct.push(format!(
-                "{{\"key\":{},\"counter\":\"{}\",\"stream_id\":\"{}\",\"drounds\":{},\"backend_level\":{},\"wide_panicked\":{},\"narrow_panicked\":{},\"bytes_equal\":{},\"state_equal\":{},\"narrow_counter_advanced_by_4_only\":{}}}",
-                jstr(&hex(&key)), ctr, id, dr, level, rw.is_err(), rn.is_err(), wide == narrow, dw == dn, advanced
+                "{{\"key\":{},\"counter\":\"{}\",\"stream_id\":\"{}\",\"construction\":{},\"drounds\":{},\"backend_level\":{},\"constructed_state_has_these_parameters\":{},\"a_call_panicked\":{},\"bytes_equal\":{},\"d_words_equal\":{},\"narrow_counter_advanced_by_4_only\":{},\"whole_states_equal\":{},\"equal_to_a_state_created_at_counter_plus_4\":{},\"continuation_refill4_refill_vs_refill_refill4_bytes_equal\":{},\"continuation_d_words_equal\":{},\"counter_advanced_by_9_only\":{},\"whole_states_equal_after_continuation\":{}}}",
+                jstr(&hex(&key)), ctr, id, how, dr, level, constructed_ok, panicked, wide == narrow, dw == dn, advanced, eq_wn, eq_fresh, wide2 == narrow2, dw2 == dn2, advanced9, eq_wn2
             ));
         }
         distinct.insert((key.clone(), ctr, id, dr));
         js.push(format!(
-            "{{\"key\":{},\"counter\":\"{}\",\"stream_id\":\"{}\",\"drounds\":{},\"wide\":{},\"narrow\":{}}}",
-            jstr(&hex(&key)), ctr, id, dr, jstr(&hex(&wide)), jstr(&hex(&narrow))
+            "{{\"key\":{},\"counter\":\"{}\",\"stream_id\":\"{}\",\"construction\":{},\"drounds\":{},\"wide\":{},\"narrow\":{},\"then_refill4_refill_on_the_wide_object\":{},\"then_refill_refill4_on_the_narrow_object\":{}}}",
+            jstr(&hex(&key)), ctr, id, how, dr, jstr(&hex(&wide)), jstr(&hex(&narrow)), jstr(&hex(&wide2)), jstr(&hex(&narrow2))
         ));
         cases.push(format!(
-            "C14 {} {} {} {} {} {} {}",
-            nlit(&key), dlist(&d), dr, nlit(&wide), dlist(&dw), nlit(&narrow), dlist(&dn)
+            "C14 {} {} {} {} {} {} {} {} {} {} {} {} {}",
+            blit(&key), dlist(&d), dr, blit(&wide), dlist(&dw), blit(&narrow), dlist(&dn), eq_wn, eq_fresh,
+            blit(&wide2), dlist(&dw2), blit(&narrow2), dlist(&dn2)
         ));
     }
-    write_shards(&out, shards, "From Coq Require Import NArith ZArith List.\nFrom CC Require Import Run.Runner Run.ChaCha.", "c14case", "run_c14", &cases);
+    write_shards(&out, shards, CASE_HEADER, "c14case", "run_c14", &cases);
     std::fs::write(format!("{}/cases.json", out), format!("[{}]", js.join(",\n"))).unwrap();
     let bd: Vec<String> = by_dr.iter().enumerate().map(|(k, v)| format!("\"{}\":{}", k, v)).collect();
     let cc: Vec<String> = classes.iter().map(|(k, v)| format!("{}:{}", jstr(k), v)).collect();
     direct.truncate(5);
     println!(
-        "{{\"evaluations\":{},\"distinct_nontrivial\":{},\"backend_level\":{},\"by_drounds\":{{{}}},\"counter_classes\":{{{}}},\"direct_failures\":[{}],\"samples\":[{}]}}",
-        count, distinct.len(), level, bd.join(","), cc.join(","), direct.join(","), js.iter().take(2).cloned().collect::<Vec<_>>().join(",")
+        "{{\"evaluations\":{},\"distinct_nontrivial\":{},\"backend_level\":{},\"backend_level_read_back\":{},\"machine_selected_by_dispatch\":{},\"machine_selected_by_dispatch_light128\":{},\"by_drounds\":{{{}}},\"counter_classes\":{{{}}},\"state_built_from\":{{\"8_byte_nonce_then_counter\":{},\"12_byte_nonce_then_counter\":{},\"zero_nonce_then_both_parameters\":{}}},\"direct_failures\":[{}],\"samples\":[{}]}}",
+        count, distinct.len(), level, readback, jstr(&sel_dispatch), jstr(&sel_light), bd.join(","), cc.join(","), by_how[0], by_how[1], by_how[2],
+        direct.join(","), js.iter().take(2).cloned().collect::<Vec<_>>().join(",")
     );
 }
 
@@ -1112,24 +1787,81 @@ fn run_c15(a: &Args) {
     let count = a.u64("count", 100) as usize;
     let shards = a.u64("shards", 16) as usize;
     let out = a.str("out", "/tmp/c15");
+    // back end: 0 = whatever the CPU detection picks, 1..5 = SSE2, SSSE3, SSE4.1, AVX, AVX2 (hook H1)
+    let level = a.u64("level", 0) as u8;
+    let readback = force_level(level);
     let mut rng = Rng::new(seed ^ 0xc15);
     let mut cases = Vec::new();
     let mut js = Vec::new();
     let mut direct = Vec::new();
     let mut distinct = HashSet::new();
     let mut opmix = [0usize; 4];
-    for _i in 0..count {
+    let mut by_nlen = [0usize; 2];
+    let mut nonce_kinds: BTreeMap<&str, usize> = BTreeMap::new();
+    let (mut refill_direct, mut refill_high, mut first_block_checks) = (0usize, 0usize, 0usize);
+    for i in 0..count {
         let key = rng.bytes(32);
         let mut k = [0u8; 32];
         k.copy_from_slice(&key);
-        let nlen = if rng.chance(1, 2) { 8 } else { 12 };
-        let nonce = rng.bytes(nlen);
-        let mut s = ChaCha::new(&k, &nonce);
+        let nlen = if i < 16 { if i % 2 == 0 { 8 } else { 12 } } else if rng.chance(1, 2) { 8 } else { 12 };
+        // nonces: byte-index pattern (any byte or word permutation shows), a single non-zero word
+        // (which word goes where), walking one, all ones, then random
+        let (nonce, nkind): (Vec<u8>, &str) = match if i < 16 { i / 2 } else { 8 + rng.below(8) as usize } {
+            0 => ((0..nlen).map(|j| (0x10 + j) as u8).collect(), "byte-index pattern"),
+            1 | 2 | 3 => {
+                let w = (i / 2 - 1) % (nlen / 4);
+                let mut n = vec![0u8; nlen];
+                n[4 * w..4 * w + 4].copy_from_slice(&[0x01 + w as u8, 0x23, 0x45, 0x67]);
+                (n, "one non-zero word")
+            }
+            4 => (vec![0xffu8; nlen], "all ones"),
+            5 | 8 => {
+                let mut n = vec![0u8; nlen];
+                let bit = rng.below(8 * nlen as u64) as usize;
+                n[bit / 8] = 1 << (bit % 8);
+                (n, "walking one")
+            }
+            6 => (vec![0u8; nlen], "all zero"),
+            _ => (rng.bytes(nlen), "random"),
+        };
+        by_nlen[(nlen == 12) as usize] += 1;
+        *nonce_kinds.entry(nkind).or_default() += 1;
+        // the d words the definition gives for this nonce (8 bytes: [0, 0, n0, n1]; 12 bytes: [0, n0, n1, n2])
+        let d_expected = if nlen == 12 { [0, rd32(&nonce[0..4]), rd32(&nonce[4..8]), rd32(&nonce[8..12])] } else { [0, 0, rd32(&nonce[0..4]), rd32(&nonce[4..8])] };
+        let mut s = match catch_unwind(AssertUnwindSafe(|| ChaCha::new(&k, &nonce))) {
+            Ok(s) => s,
+            Err(_) => {
+                direct.push(format!("{{\"case\":{{\"key\":{},\"nonce\":{}}},\"failures\":[\"ChaCha::new panicked\"]}}", jstr(&hex(&key)), jstr(&hex(&nonce))));
+                continue;
+            }
+        };
+        // read back for the record; the model does NOT start from this, it builds its own initial
+        // state from (key, nonce) and compares these four words with it
         let d0 = state_d(&s);
-        let nops = rng.range(3, 9);
-        let mut pops = Vec::new();
-        let mut jops = Vec::new();
+        let mut pops: Vec<String> = Vec::new();
+        let mut jops: Vec<String> = Vec::new();
         let mut fails: Vec<String> = Vec::new();
+        if d0 != d_expected {
+            fails.push(format!("a state created directly with nonce {} reports parameters {:?}, the nonce words are {:?}", hex(&nonce), d0, d_expected));
+        }
+        {
+            // created directly = what the cipher types create: the first block of new(key, nonce) is the
+            // first key-stream block of ChaCha20 (8-byte nonce) / the IETF variant (12-byte nonce)
+            let var = if nlen == 12 { &VARIANTS[3] } else { &VARIANTS[2] };
+            let mut t = s.clone();
+            let mut b = [0x77u8; 64];
+            t.refill(10, &mut b);
+            first_block_checks += 1;
+            match oracle_block(var, &key, &nonce, 0) {
+                Some(o) => {
+                    if o[..] != b[..] {
+                        fails.push(format!("the first block of ChaCha::new(key, nonce) differs from block 0 of {} created with the same key and nonce", var.name));
+                    }
+                }
+                None => fails.push(format!("{} created with this key and nonce cannot produce block 0", var.name)),
+            }
+        }
+        let nops = rng.range(3, 9);
         for _ in 0..nops {
             match rng.below(10) {
                 0..=2 => {
@@ -1182,7 +1914,7 @@ fn run_c15(a: &Args) {
                     // direct: the block equals that of a cipher created directly with these values
                     let p0 = s.get_stream_param(0);
                     let p1 = s.get_stream_param(1);
-                    let mut b = [0u8; 64];
+                    let mut b = [0x99u8; 64];
                     s.refill(dr, &mut b);
                     if p0 < (1u64 << 58) {
                         let var = match dr {
@@ -1190,14 +1922,22 @@ fn run_c15(a: &Args) {
                             6 => &VARIANTS[1],
                             _ => &VARIANTS[2],
                         };
-                        if let Some(o) = oracle_block(var, &key, &p1.to_le_bytes(), p0 as u128) {
-                            if o[..] != b[..] {
-                                fails.push(format!("op {}: refill with parameters (0,{}) / (1,{}) differs from {} created with nonce = stream id and seeked to that block", jops.len(), p0, p1, var.name));
+                        refill_direct += 1;
+                        match oracle_block(var, &key, &p1.to_le_bytes(), p0 as u128) {
+                            Some(o) => {
+                                if o[..] != b[..] {
+                                    fails.push(format!("op {}: refill with parameters (0,{}) / (1,{}) differs from {} created with nonce = stream id and seeked to that block", jops.len(), p0, p1, var.name));
+                                }
                             }
+                            // a cipher that cannot be created / seeked / read there is a failure, not a skipped comparison
+                            None => fails.push(format!("op {}: {} created with nonce = stream id {} cannot produce block {}", jops.len(), var.name, p1, p0)),
                         }
+                    } else {
+                        // no cipher type can be seeked to a block >= 2^58 (byte position beyond u64): only the model checks this block
+                        refill_high += 1;
                     }
                     opmix[2] += 1;
-                    pops.push(format!("PRefill {} {}", dr, nlit(&b)));
+                    pops.push(format!("PRefill {} {}", dr, blit(&b)));
                     jops.push(format!("{{\"refill\":{},\"out\":{}}}", dr, jstr(&hex(&b))));
                 }
                 _ => {
@@ -1272,7 +2012,7 @@ fn run_c15(a: &Args) {
                     }
                     opmix[3] += 1;
                     let d2 = state_d(&s2);
-                    pops.push(format!("PEq {} {} {} {}", nlit(&key2), dlist(&d2), e32, e64));
+                    pops.push(format!("PEq {} {} {} {}", blit(&key2), dlist(&d2), e32, e64));
                     jops.push(format!("{{\"eq_with\":{{\"key\":{},\"d\":{:?}}},\"stream32_eq\":{},\"stream64_eq\":{}}}", jstr(&hex(&key2)), d2, e32, e64));
                 }
             }
@@ -1284,14 +2024,16 @@ fn run_c15(a: &Args) {
         }
         distinct.insert(j.clone());
         js.push(j);
-        cases.push(format!("C15 {} {} [{}]", nlit(&key), dlist(&d0), pops.join("; ")));
+        cases.push(format!("C15 {} {} {} {} [{}]", blit(&key), nlen, blit(&nonce), dlist(&d0), pops.join("; ")));
     }
-    write_shards(&out, shards, "From Coq Require Import NArith ZArith List.\nFrom CC Require Import Run.Runner Run.ChaCha.", "c15case", "run_c15", &cases);
+    write_shards(&out, shards, CASE_HEADER, "c15case", "run_c15", &cases);
     std::fs::write(format!("{}/cases.json", out), format!("[{}]", js.join(",\n"))).unwrap();
     direct.truncate(5);
+    let nk: Vec<String> = nonce_kinds.iter().map(|(k, v)| format!("{}:{}", jstr(k), v)).collect();
     println!(
-        "{{\"evaluations\":{},\"distinct_nontrivial\":{},\"op_mix\":{{\"set\":{},\"get\":{},\"refill\":{},\"eq\":{}}},\"direct_failures\":[{}],\"samples\":[{}]}}",
-        count, distinct.len(), opmix[0], opmix[1], opmix[2], opmix[3], direct.join(","), js.iter().take(2).cloned().collect::<Vec<_>>().join(",")
+        "{{\"evaluations\":{},\"distinct_nontrivial\":{},\"backend_level\":{},\"backend_level_read_back\":{},\"nonce_length\":{{\"8\":{},\"12\":{}}},\"nonce_kinds\":{{{}}},\"initial_state_built_by_the_model_from_key_and_nonce\":true,\"first_block_vs_cipher_type_checks\":{},\"op_mix\":{{\"set\":{},\"get\":{},\"refill\":{},\"eq\":{}}},\"refills_checked_against_a_cipher_type\":{},\"refills_at_counter_ge_2^58_checked_by_the_model_only\":{},\"direct_failures\":[{}],\"samples\":[{}]}}",
+        count, distinct.len(), level, readback, by_nlen[0], by_nlen[1], nk.join(","), first_block_checks, opmix[0], opmix[1], opmix[2], opmix[3], refill_direct, refill_high,
+        direct.join(","), js.iter().take(2).cloned().collect::<Vec<_>>().join(",")
     );
 }
 
